@@ -380,7 +380,22 @@ def laneSetBody : List String → String
         | .provider => "provider" | .marshal => "marshal"
   | _ => "bad-op"
 
+/-- `c17dlhops <final body size per attempt> <hop body sizes, all attempts>` → the download
+callback's arguments with a clock that never elapses (each body read in one piece, EOF seen or
+not does not matter once closed): redirect hops are silent, every attempt reports its own final
+body. -/
+def laneDlHops : List String → String
+  | [finals, hops] =>
+    match decodeIntList finals, decodeIntList hops with
+    | some fs, some hs =>
+      let hopRuns : List (List Req.Progress.REvent) := hs.map fun h => [⟨h, false, false⟩]
+      showInts (Req.Progress.runDownloadAttempts
+        ((fs.zipIdx).map fun (f, i) => ((if i == 0 then hopRuns else []), [⟨f, false, false⟩])))
+    | _, _ => "bad-op"
+  | _ => "bad-op"
+
 def lanes : List (String × (List String → String)) := [
+  ("c17dlhops", laneDlHops),
   ("c17setbody", laneSetBody),
   ("c17progwt", laneProgWT),
   ("c17progrt", laneProgRT),
